@@ -303,7 +303,10 @@ func runC19(c *RuleCtx) {
 		}
 		done[fnErr{f, errObj}] = true
 		rpcV := p.R(f).Val(cs.Call.Args[0])
-		failed := AtomCmp("push err != nil", func(v *V) bool { return v.Obj == errObj || v.IsCall("(*rpcQueue).Push", "(*rpcQueue).UrgentPush") }, "!=", isNilV)
+		pushCall := ast.Node(cs.Call)
+		failed := AtomCmp("push err != nil", func(v *V) bool {
+			return v.Obj == errObj || v.IsCall("(*rpcQueue).Push", "(*rpcQueue).UrgentPush") || (v.Kind == "call" && v.Node == pushCall)
+		}, "!=", isNilV)
 		isTrace := func(kind string) func(ast.Node) bool {
 			return func(n ast.Node) bool {
 				for _, x := range p.CallsIn(f, n, false) {
